@@ -82,6 +82,17 @@ def run(run):
             if len(H) == 0:
                 continue
             codes.append(("LDPC(%s,%dx%d)" % (kind, len(H), n), (lambda H=H: E.LDPCCodeEncoder(check_matrix=torch.tensor(H, dtype=torch.int64))), H, kind))
+            # a twin with the same check degrees but the ones in other columns, decoded right after it with the same batch sizes: nothing derived
+            # from one parity-check matrix may be reused for another
+            if n <= 10:
+                perm = list(range(n))
+                for _ in range(20):
+                    rng.shuffle(perm)
+                    H2 = [[row[perm[j]] for j in range(n)] for row in H]
+                    if H2 != H:
+                        break
+                if H2 != H:
+                    codes.append(("LDPC(%s,%dx%d,twin)" % (kind, len(H), n), (lambda H2=H2: E.LDPCCodeEncoder(check_matrix=torch.tensor(H2, dtype=torch.int64))), H2, kind))
     codes.append(("Hamming(7,4)", (lambda: E.HammingCodeEncoder(3)), None, "bundled"))
     codes.append(("Repetition(5)", (lambda: E.RepetitionCodeEncoder(5)), None, "bundled"))
     codes.append(("SPC(4)", (lambda: E.SingleParityCheckCodeEncoder(4)), None, "bundled"))
